@@ -2,6 +2,7 @@ package c05rt
 
 import (
 	"bytes"
+	"context"
 	"encoding/hex"
 	"encoding/json"
 	"fmt"
@@ -11,6 +12,7 @@ import (
 	"os"
 	"reflect"
 	"strconv"
+	"strings"
 	"sync"
 	"time"
 
@@ -37,6 +39,7 @@ type Iface struct {
 	Key     string // what the implementor passes to Helper
 	Actor   bus.Actor
 	Make    func(bus.Session, bus.Proxy) interface{}
+	Create  func(s bus.Session, svc bus.Service, inst string) (interface{}, error) // a further object of the interface in a service
 	Actions []Action
 }
 
@@ -58,6 +61,7 @@ type Leg struct {
 	Seen    bool     `json:"seen"`     // a frame was observed
 }
 type Record struct {
+	Via   string `json:"via"` // "" main object through its proxy; "ctx" through WithContext; "obj" / "obj+ctx" an object returned by a method
 	Iface string `json:"iface"`
 	Kind  string `json:"kind"`
 	Name  string `json:"name"`
@@ -72,14 +76,76 @@ type Driver struct {
 	helpers map[string]interface{}
 	got     map[string][]interface{}
 	rets    map[string]*wg.Val
+	retObjs map[string]reflect.Value
 	rng     *hx.Rng
 	out     *json.Encoder
 	tap     *tap
+	session bus.Session
+	objSeq  int
+	pending []target // objects returned by methods, still to be exercised
+}
+
+// target: one object of an interface reached through one proxy.
+type target struct {
+	it    *Iface
+	proxy interface{}
+	svc   bus.Service
+	sid   uint32
+	inst  string // instance suffix of the implementor behind it
+	via   string
+}
+
+// ObjTy: the type of a reference to an object of the named interface.
+func ObjTy(name string) *wg.Ty { return &wg.Ty{K: wg.KScalar, S: "o", Name: name} }
+func isObj(t *wg.Ty) bool      { return t != nil && t.K == wg.KScalar && t.S == "o" && t.Name != "" }
+func hasObj(a Action) bool {
+	for _, t := range a.Params {
+		if isObj(t) {
+			return true
+		}
+	}
+	return isObj(a.Ret) || isObj(a.Payload)
+}
+
+// ids of the object a generated proxy points at.
+func ids(p interface{}) (sid, oid uint32, ok bool) {
+	x, ok := p.(interface{ Proxy() bus.Proxy })
+	if !ok || x == nil || reflect.ValueOf(p).IsNil() {
+		return 0, 0, false
+	}
+	return x.Proxy().ServiceID(), x.Proxy().ObjectID(), true
+}
+
+// objVal stands for an object reference in comparisons: two references are equal when they
+// name the same <service, object>.
+func objVal(p interface{}) *wg.Val {
+	sid, oid, ok := ids(p)
+	if !ok {
+		return &wg.Val{K: wg.VStr, S: []byte("<no object>")}
+	}
+	return &wg.Val{K: wg.VStr, S: []byte(fmt.Sprintf("object %d/%d", sid, oid))}
+}
+
+// newObject adds a further object of the named interface to svc.
+func (d *Driver) newObject(name string, svc bus.Service) (interface{}, string) {
+	for i := range d.ifaces {
+		if d.ifaces[i].Name == name {
+			d.objSeq++
+			inst := fmt.Sprintf("#%d", d.objSeq)
+			var p interface{}
+			var err error
+			if !call(func() { p, err = d.ifaces[i].Create(d.session, svc, inst) }) || err != nil {
+				panic(fmt.Sprintf("Create%s: %v", name, err))
+			}
+			return p, inst
+		}
+	}
+	panic("no interface " + name)
 }
 
 func New() *Driver {
 	log.SetOutput(io.Discard)
-	return &Driver{helpers: map[string]interface{}{}, got: map[string][]interface{}{}, rets: map[string]*wg.Val{}}
+	return &Driver{helpers: map[string]interface{}{}, got: map[string][]interface{}{}, rets: map[string]*wg.Val{}, retObjs: map[string]reflect.Value{}}
 }
 
 // ---- called by the generated implementors ----
@@ -96,9 +162,11 @@ func (d *Driver) Args(key string, args ...interface{}) {
 }
 func (d *Driver) Ret(key string, out interface{}) {
 	d.mu.Lock()
-	v := d.rets[key]
+	v, o := d.rets[key], d.retObjs[key]
 	d.mu.Unlock()
-	if v != nil {
+	if o.IsValid() {
+		reflect.ValueOf(out).Elem().Set(o)
+	} else if v != nil {
 		Fill(reflect.ValueOf(out).Elem(), v)
 	}
 }
@@ -164,6 +232,7 @@ func (d *Driver) Run() {
 		d.fatal(fmt.Sprintf("authenticate: %v", err))
 	}
 	client := bus.NewClient(ch)
+	d.session = srv.Session()
 	for i, it := range d.ifaces {
 		var svc bus.Service
 		if !call(func() { svc, err = srv.NewService(fmt.Sprintf("S%d%s", i, it.Name), it.Actor) }) || err != nil {
@@ -174,38 +243,80 @@ func (d *Driver) Run() {
 		ok := call(func() {
 			meta, e := bus.GetMetaObject(client, svc.ServiceID(), 1)
 			if err = e; e == nil {
-				proxy = it.Make(srv.Session(), bus.NewProxy(client, meta, svc.ServiceID(), 1))
+				proxy = it.Make(d.session, bus.NewProxy(client, meta, svc.ServiceID(), 1))
 			}
 		})
 		if !ok || err != nil {
 			d.out.Encode(Record{Iface: it.Name, Kind: "service", Err: fmt.Sprintf("proxy: %v", err)})
 			continue
 		}
-		d.mu.Lock()
-		helper := d.helpers[it.Key]
-		d.mu.Unlock()
-		for _, act := range it.Actions {
-			rec := Record{Iface: it.Name, Kind: act.Kind, Name: act.Name, ID: act.ID}
-			func() {
-				defer func() {
-					if e := recover(); e != nil {
-						rec.Err = fmt.Sprintf("panic: %v", e)
-					}
-				}()
-				switch act.Kind {
-				case "fn":
-					d.method(&rec, act, svc.ServiceID(), proxy, maxLen)
-				case "sig":
-					d.signal(&rec, act, svc.ServiceID(), proxy, helper, maxLen)
-				case "prop":
-					d.property(&rec, act, svc.ServiceID(), proxy, helper, maxLen)
-				}
-			}()
-			d.out.Encode(rec)
+		main := target{it: &d.ifaces[i], proxy: proxy, svc: svc, sid: svc.ServiceID()}
+		d.pass(main, maxLen, false)
+		// the same object through the proxy the generated WithContext returns
+		d.viaContext(main, maxLen)
+		// objects that methods of this interface returned: their own interface, directly
+		// and through WithContext (object id differs from service id there)
+		for len(d.pending) > 0 {
+			t := d.pending[0]
+			d.pending = d.pending[1:]
+			d.pass(t, maxLen, true)
+			d.viaContext(t, maxLen)
 		}
 	}
 	d.out.Encode(Record{Kind: "done"})
 	os.Exit(0)
+}
+
+// viaContext repeats a few actions through p.WithContext(context.Background()).
+func (d *Driver) viaContext(t target, maxLen int) {
+	m := reflect.ValueOf(t.proxy).MethodByName("WithContext")
+	if !m.IsValid() {
+		d.out.Encode(Record{Via: t.via + "+ctx", Iface: t.it.Name, Kind: "service", Err: "generated proxy has no WithContext"})
+		return
+	}
+	var out []reflect.Value
+	if !call(func() { out = m.Call([]reflect.Value{reflect.ValueOf(context.Background())}) }) || len(out) != 1 {
+		d.out.Encode(Record{Via: t.via + "+ctx", Iface: t.it.Name, Kind: "service", Err: "WithContext did not return"})
+		return
+	}
+	c := t
+	c.proxy = out[0].Interface()
+	c.via = strings.TrimPrefix(t.via+"+ctx", "+")
+	d.pass(c, maxLen, true)
+}
+
+// pass runs the actions of the interface against one target.  short: the first method,
+// signal and property that carry no object (secondary and WithContext passes).
+func (d *Driver) pass(t target, maxLen int, short bool) {
+	helper := func() interface{} {
+		d.mu.Lock()
+		defer d.mu.Unlock()
+		return d.helpers[t.it.Key+t.inst]
+	}()
+	done := map[string]bool{}
+	for _, act := range t.it.Actions {
+		if short && (hasObj(act) || done[act.Kind]) {
+			continue
+		}
+		done[act.Kind] = true
+		rec := Record{Via: t.via, Iface: t.it.Name, Kind: act.Kind, Name: act.Name, ID: act.ID}
+		func() {
+			defer func() {
+				if e := recover(); e != nil {
+					firstErr(&rec, fmt.Sprintf("panic: %v", e))
+				}
+			}()
+			switch act.Kind {
+			case "fn":
+				d.method(&rec, act, t, maxLen)
+			case "sig":
+				d.signal(&rec, act, t, helper, maxLen)
+			case "prop":
+				d.property(&rec, act, t, helper, maxLen)
+			}
+		}()
+		d.out.Encode(rec)
+	}
 }
 
 // leg builds the description of one passage: vals are the values passed in, data the
